@@ -27,7 +27,7 @@ pub fn set(input: Input<'_>) -> ParserResult<'_, ASN1Type> {
                         skip_ws_and_comments(sequence_component),
                         optional_comma,
                     )),
-                    opt(terminated(extension_marker, opt(char(COMMA)))),
+                    opt(terminated(extension_marker, opt(skip_ws_and_comments(char(COMMA))))),
                     opt(many0(terminated(
                         skip_ws_and_comments(sequence_component),
                         optional_comma,
